@@ -103,7 +103,7 @@ theorem C05_tie_reload_replaces :
 
 /-- already managed ⇒ nothing; otherwise the certificate is loaded (and cached) first -/
 theorem C05_tie_manage_loads_first :
-    (manageOne.map (·.2)).take 7 = ["matching", "range:certs", "ifManaged", "return:nil", "", "", "loadAndCache"] := by
+    (manageOne.map (·.2)).take 7 = ["matching", "range:matching", "ifManaged", "return:nil", "", "", "loadAndCache"] := by
   decide
 
 /-- obtaining happens only inside the load-error branch, after the "not not-exist ⇒ return the
